@@ -214,6 +214,62 @@ func TestC15Inotify(t *testing.T) {
 		}
 	}
 	st.Extra["inotify_request_sets"] = 1<<9 - 1
+	// the same path requested several times: everything requested so far must
+	// stay observable, nothing unrelated may be subscribed (all ordered pairs of
+	// the 2^5-1 portable sets plus the default set, and a sample of triples)
+	sets := []uint32{0}
+	for o := uint32(1); o < 32; o++ {
+		sets = append(sets, o)
+	}
+	nseq := 0
+	check := func(seq []uint32) {
+		var union uint32
+		for i, o := range seq {
+			var err error
+			if o == 0 {
+				err = w.Add(target)
+				o = 0x1f
+			} else {
+				err = w.AddWith(target, fsnotify.VerifWithOps(fsnotify.Op(o)))
+			}
+			if err != nil {
+				fail15(t, c15Replay{Backend: "inotify", Kind: "request-seq", Ops: o}, fmt.Errorf("Add #%d of %v: %v", i+1, seq, err))
+			}
+			union |= o
+			var want uint32
+			for _, r := range requestRows {
+				if fsnotify.Op(union)&r.op != 0 {
+					want |= r.mask
+				}
+			}
+			got, _, err := fdinfoMask(w)
+			if err != nil {
+				engine.ExitInconclusive(err.Error())
+			}
+			if got != want {
+				w.Remove(target)
+				fail15(t, c15Replay{Backend: "inotify", Kind: "request-seq", Ops: seq[0] | seq[len(seq)-1]<<9, Mask: uint64(i)},
+					fmt.Errorf("after requesting %v on one path in turn (0 = default set) the kernel mask is %s, the operations requested so far need %s", seq[:i+1], engine.MaskString(got), engine.MaskString(want)))
+			}
+		}
+		w.Remove(target)
+		nseq++
+		st.Eval()
+	}
+	for _, a := range sets {
+		for _, b := range sets {
+			check([]uint32{a, b})
+		}
+	}
+	x := uint32(2463534242)
+	for i := 0; i < 2000; i++ {
+		x ^= x << 13
+		x ^= x >> 17
+		x ^= x << 5
+		check([]uint32{sets[x%32], sets[(x>>8)%32], sets[(x>>16)%32]})
+	}
+	st.NonTrivial("request-seq", fmt.Sprintf("%d sequences of 2-3 requests on one path (all %d ordered pairs, 2000 triples): kernel mask == union of the documented rows after every request", nseq, len(sets)*len(sets)))
+	st.Extra["inotify_request_sequences"] = nseq
 	st.Extra["exhaustive"] = true
 }
 
